@@ -167,6 +167,11 @@ pub fn exercise(text: &str) -> Result<Seen, Fail> {
             for i in 0..n.min(3) {
                 if let Ok(dd) = d.clone().partial(i) {
                     let _ = dd.eval(&vals);
+                    // the chains below differentiate products and powers of derivatives again: bounded to
+                    // short texts and short derivatives (the cost grows quickly with the size)
+                    if text.len() > 40 || dd.unparse().len() > 120 {
+                        continue;
+                    }
                     // chains on derived expressions (derivatives are often constants that still list
                     // variables): helper methods, overloaded operators, substitution, differentiation again
                     let _ = dd.clone().sin().and_then(|x| x.partial(i)).map(|x| x.eval(&vals));
